@@ -1,6 +1,6 @@
 (* A log accepted by the discipline check has only safe crash states: for every prefix of the log and every subset
    of the writes pending at that point.  (Model/Crash.v) *)
-From Coq Require Import NArith List Bool Lia.
+From Coq Require Import NArith List Bool Lia Arith PeanoNat.
 From Q.Model Require Import Crash.
 Import ListNotations.
 Open Scope N_scope.
@@ -191,3 +191,238 @@ Example rejected_log_has_unsafe_crash_state :
   let s := {| rcl := [(5, 1)]; sll := [(100, [5])] |} in
   ~ safe [100; 101] (apply_masked s [SetRc 7 1; SetSlot 101 [7]] [false; true]).
 Proof. intros s H. specialize (H 7). vm_compute in H. apply H. reflexivity. Qed.
+
+(* ---- exactness at the level of cells: when the check rejects, some crash state of some prefix is unsafe
+   (the bounds are attained simultaneously, because cells are written independently) *)
+Lemma apply_masked_app P : forall s m e b, length m = length P ->
+  apply_masked s (P ++ [e]) (m ++ [b]) = (if b then apply1 (apply_masked s P m) e else apply_masked s P m).
+Proof.
+  induction P as [|x P IH]; intros s m e b L.
+  - destruct m; [|discriminate]. cbn [app apply_masked]. destruct b; reflexivity.
+  - destruct m as [|y m]; [discriminate|]. cbn [app apply_masked]. apply IH. cbn [length] in L. congruence.
+Qed.
+
+Lemma extremes_attained h P : forall s,
+  exists m, length m = length P /\
+    get_rc (apply_masked s P m) h = fold_left (fmin h) P (get_rc s h) /\
+    forall i, occ h (get_sl (apply_masked s P m) i) = fold_left (fmax i h) P (occ h (get_sl s i)).
+Proof.
+  induction P as [|e P IH] using rev_ind; intros s.
+  - exists []. cbn [fold_left apply_masked length]. repeat split; reflexivity.
+  - destruct (IH s) as [m [L [Hrc Hsl]]].
+    destruct e as [h' v|i' t|].
+    + (* refcount write *)
+      destruct (N.eqb_spec h' h) as [->|Hd].
+      * destruct (N.ltb_spec v (fold_left (fmin h) P (get_rc s h))) as [Hlt|Hge].
+        -- exists (m ++ [true]). split; [rewrite !app_length; cbn [length]; lia|].
+           rewrite apply_masked_app by exact L. split.
+           ++ rewrite get_rc_apply1, N.eqb_refl, fold_left_app. cbn [fold_left fmin]. rewrite N.eqb_refl. lia.
+           ++ intros i. rewrite get_sl_apply1, fold_left_app. cbn [fold_left fmax]. apply Hsl.
+        -- exists (m ++ [false]). split; [rewrite !app_length; cbn [length]; lia|].
+           rewrite apply_masked_app by exact L. split.
+           ++ rewrite fold_left_app. cbn [fold_left fmin]. rewrite N.eqb_refl. rewrite Hrc. lia.
+           ++ intros i. rewrite fold_left_app. cbn [fold_left fmax]. apply Hsl.
+      * exists (m ++ [false]). split; [rewrite !app_length; cbn [length]; lia|].
+        rewrite apply_masked_app by exact L. split.
+        -- rewrite fold_left_app. cbn [fold_left fmin]. destruct (N.eqb_spec h' h); [congruence|]. exact Hrc.
+        -- intros i. rewrite fold_left_app. cbn [fold_left fmax]. apply Hsl.
+    + (* slot write *)
+      destruct (N.ltb_spec (fold_left (fmax i' h) P (occ h (get_sl s i'))) (occ h t)) as [Hlt|Hge].
+      * exists (m ++ [true]). split; [rewrite !app_length; cbn [length]; lia|].
+        rewrite apply_masked_app by exact L. split.
+        -- rewrite get_rc_apply1, fold_left_app. cbn [fold_left fmin]. exact Hrc.
+        -- intros i. rewrite get_sl_apply1, fold_left_app. cbn [fold_left fmax].
+           rewrite (N.eqb_sym i i'). destruct (N.eqb_spec i' i) as [->|Hd]; [lia|apply Hsl].
+      * exists (m ++ [false]). split; [rewrite !app_length; cbn [length]; lia|].
+        rewrite apply_masked_app by exact L. split.
+        -- rewrite fold_left_app. cbn [fold_left fmin]. exact Hrc.
+        -- intros i. rewrite fold_left_app. cbn [fold_left fmax].
+           destruct (N.eqb_spec i' i) as [->|Hd]; [rewrite Hsl; lia|apply Hsl].
+    + exists (m ++ [false]). split; [rewrite !app_length; cbn [length]; lia|].
+      rewrite apply_masked_app by exact L. split.
+      * rewrite fold_left_app. cbn [fold_left fmin]. exact Hrc.
+      * intros i. rewrite fold_left_app. cbn [fold_left fmax]. apply Hsl.
+Qed.
+
+Section Exact.
+  Variable dom : list N.
+
+  Lemma chk_false_unsafe s P h : chk dom s P h = false -> exists m, ~ safe dom (apply_masked s P m).
+  Proof.
+    intros C. unfold chk in C. apply N.leb_gt in C.
+    destruct (extremes_attained h P s) as [m [_ [Hrc Hsl]]]. exists m. intros S. specialize (S h).
+    unfold crefs in S. rewrite Hrc in S.
+    rewrite (sumN_ext _ (fun i => maxocc s P i h)) in S by (intros i _; apply Hsl).
+    change (fold_left (fmin h) P (get_rc s h)) with (rc_min s P h) in S. unfold refs_max in C. lia.
+  Qed.
+
+  Lemma forallb_false_ex {A} (f : A -> bool) l : forallb f l = false -> exists x, In x l /\ f x = false.
+  Proof.
+    induction l as [|x t IH]; cbn [forallb]; [discriminate|]. intros H.
+    destruct (f x) eqn:F; [|exists x; split; [left; reflexivity|exact F]].
+    cbn [andb] in H. destruct (IH H) as [y [Hy Fy]]. exists y. split; [right; exact Hy|exact Fy].
+  Qed.
+
+  Lemma disc_false_unsafe evs : forall s P, disc dom s P evs = false ->
+    exists k m, ~ safe dom (apply_masked (fst (crun s P (firstn k evs))) (snd (crun s P (firstn k evs))) m).
+  Proof.
+    induction evs as [|e evs IH]; intros s P D; [discriminate|].
+    assert (Step : forall e', e' <> Sync -> e = e' -> step_ok dom s P e' && disc dom s (P ++ [e']) evs = false ->
+              exists k m, ~ safe dom (apply_masked (fst (crun s P (firstn k (e' :: evs)))) (snd (crun s P (firstn k (e' :: evs)))) m)).
+    { intros e' Hne _ H. destruct (step_ok dom s P e') eqn:St.
+      - cbn [andb] in H. destruct (IH s (P ++ [e']) H) as [k [m U]]. exists (S k), m.
+        cbn [firstn]. destruct e'; [exact U|exact U|congruence].
+      - assert (exists h, chk dom s (P ++ [e']) h = false) as [h C].
+        { destruct e' as [h v|i t|]; cbn [step_ok] in St; [exists h; exact St| |congruence].
+          destruct (forallb_false_ex _ _ St) as [h [_ C]]. exists h. exact C. }
+        destruct (chk_false_unsafe _ _ _ C) as [m U]. exists 1%nat, m. cbn [firstn].
+        destruct e'; [exact U|exact U|congruence]. }
+    destruct e as [h v|i t|].
+    - cbn [disc] in D. apply (Step (SetRc h v)); [discriminate|reflexivity|exact D].
+    - cbn [disc] in D. apply (Step (SetSlot i t)); [discriminate|reflexivity|exact D].
+    - cbn [disc] in D. destruct (IH _ _ D) as [k [m U]]. exists (S k), m. cbn [firstn crun]. exact U.
+  Qed.
+
+  (* the check is exact for the cell model: it rejects only logs that have an unsafe crash state *)
+  Theorem disciplined_false_unsafe s evs : disciplined dom s evs = false ->
+    exists k m, ~ safe dom (apply_masked (fst (crun s [] (firstn k evs))) (snd (crun s [] (firstn k evs))) m).
+  Proof.
+    unfold disciplined. intros H. destruct (init_ok dom s) eqn:I.
+    - cbn [andb] in H. exact (disc_false_unsafe evs s [] H).
+    - exists 0%nat, []. cbn [firstn crun fst snd apply_masked]. unfold init_ok in I.
+      destruct (forallb_false_ex _ _ I) as [h [_ C]]. apply N.leb_gt in C. intros S. specialize (S h). lia.
+  Qed.
+End Exact.
+
+(* ---- the ordered flush protocol, for every batch:
+     1. refcount writes that do not lower any refcount (allocations)      2. sync
+     3. the slot writes (new mappings, cleared mappings, table links)       4. sync
+     5. refcount writes that stay above the references now on disk (releases)
+   has only safe crash states, whatever the batch, provided the refcounts after step 1 cover every mixture of old
+   and new slot contents. *)
+Section Protocol.
+  Variable dom : list N.
+
+  Definition rc_evs (l : list (N * N)) : list ev := map (fun p => SetRc (fst p) (snd p)) l.
+  Definition sl_evs (l : list (N * list N)) : list ev := map (fun p => SetSlot (fst p) (snd p)) l.
+
+  Definition protocol (incs : list (N * N)) (sets : list (N * list N)) (decs : list (N * N)) : list ev :=
+    rc_evs incs ++ [Sync] ++ sl_evs sets ++ [Sync] ++ rc_evs decs.
+
+  Definition InvRun (s : fs) (P : list ev) (evs : list ev) : Prop :=
+    forall k, Inv dom (fst (crun s P (firstn k evs))) (snd (crun s P (firstn k evs))).
+
+  Lemma crun_app A : forall s P B, crun s P (A ++ B) = crun (fst (crun s P A)) (snd (crun s P A)) B.
+  Proof.
+    induction A as [|e A IH]; intros s P B; [reflexivity|].
+    destruct e; cbn [app crun]; apply IH.
+  Qed.
+
+  Lemma invrun_app s P A B : InvRun s P A -> InvRun (fst (crun s P A)) (snd (crun s P A)) B -> InvRun s P (A ++ B).
+  Proof.
+    intros HA HB k. destruct (Nat.le_gt_cases k (length A)) as [Hle|Hgt].
+    - rewrite firstn_app. replace (k - length A)%nat with 0%nat by lia. rewrite firstn_O, app_nil_r. apply HA.
+    - rewrite firstn_app, firstn_all2 by lia. rewrite crun_app. apply HB.
+  Qed.
+
+  Lemma crun_no_sync evs : (forall e, In e evs -> e <> Sync) -> forall s P, crun s P evs = (s, P ++ evs).
+  Proof.
+    induction evs as [|e evs IH]; intros H s P; cbn [crun]; [rewrite app_nil_r; reflexivity|].
+    assert (e <> Sync) by (apply H; left; reflexivity).
+    destruct e; [| |congruence]; (rewrite IH by (intros x Hx; apply H; right; exact Hx)); rewrite <- app_assoc; reflexivity.
+  Qed.
+
+  Lemma rc_evs_no_sync l e : In e (rc_evs l) -> e <> Sync.
+  Proof. unfold rc_evs. intros H. apply in_map_iff in H as [p [<- _]]. discriminate. Qed.
+  Lemma sl_evs_no_sync l e : In e (sl_evs l) -> e <> Sync.
+  Proof. unfold sl_evs. intros H. apply in_map_iff in H as [p [<- _]]. discriminate. Qed.
+
+  Lemma firstn_in {A} (l : list A) k x : In x (firstn k l) -> In x l.
+  Proof. revert k; induction l as [|y l IH]; intros [|k]; cbn [firstn]; intros H; try contradiction. destruct H as [->|H]; [left; reflexivity|right; exact (IH _ H)]. Qed.
+
+  (* slot bounds are not touched by refcount writes, refcount bounds not by slot writes *)
+  Lemma maxocc_rc_evs s l i h : maxocc s (rc_evs l) i h = occ h (get_sl s i).
+  Proof.
+    unfold maxocc. generalize (occ h (get_sl s i)) as a. induction l as [|p l IH]; intros a; cbn [rc_evs map fold_left]; [reflexivity|]. apply IH.
+  Qed.
+
+  Lemma rc_min_sl_evs s l h : rc_min s (sl_evs l) h = get_rc s h.
+  Proof.
+    unfold rc_min. generalize (get_rc s h) as a. induction l as [|p l IH]; intros a; cbn [sl_evs map fold_left]; [reflexivity|]. apply IH.
+  Qed.
+
+  Lemma rc_min_ge_all s l h b : b <= get_rc s h -> (forall p, In p l -> fst p = h -> b <= snd p) -> b <= rc_min s (rc_evs l) h.
+  Proof.
+    unfold rc_min. generalize (get_rc s h) as a. induction l as [|p l IH]; intros a Ha H; cbn [rc_evs map fold_left]; [exact Ha|].
+    apply IH.
+    - destruct (N.eqb_spec (fst p) h) as [E|_]; [|exact Ha]. pose proof (H p (or_introl eq_refl) E). lia.
+    - intros q Hq. apply H. right. exact Hq.
+  Qed.
+
+  Lemma maxocc_prefix_le s l k i h : maxocc s (firstn k (sl_evs l)) i h <= maxocc s (sl_evs l) i h.
+  Proof.
+    unfold maxocc. rewrite <- (firstn_skipn k (sl_evs l)) at 2. rewrite fold_left_app.
+    apply (fold_fmax_ge i h).
+  Qed.
+
+  (* phase 1 / phase 5: refcount writes over a state that satisfies the invariant *)
+  Lemma invrun_rc s l : Inv dom s [] ->
+    (forall p, In p l -> crefs dom s (fst p) <= snd p) -> InvRun s [] (rc_evs l).
+  Proof.
+    intros I H k h.
+    rewrite crun_no_sync by (intros e He; apply (rc_evs_no_sync l); exact (firstn_in _ _ _ He)).
+    cbn [fst snd app]. unfold rc_evs. rewrite firstn_map. fold (rc_evs (firstn k l)).
+    unfold refs_max. rewrite (sumN_ext _ (fun i => occ h (get_sl s i))) by (intros i _; apply maxocc_rc_evs).
+    fold (crefs dom s h). apply rc_min_ge_all.
+    - specialize (I h). unfold refs_max, rc_min, maxocc in I. cbn [fold_left] in I. exact I.
+    - intros p Hp <-. apply H. exact (firstn_in _ _ _ Hp).
+  Qed.
+
+  (* phase 3: slot writes, when the refcounts cover every mixture of old and new contents *)
+  Lemma invrun_sl s l : (forall h, refs_max dom s (sl_evs l) h <= get_rc s h) -> InvRun s [] (sl_evs l).
+  Proof.
+    intros H k h.
+    rewrite crun_no_sync by (intros e He; apply (sl_evs_no_sync l); exact (firstn_in _ _ _ He)).
+    cbn [fst snd app]. etransitivity; [|etransitivity; [apply (H h)|]].
+    - unfold refs_max. apply sumN_le. intros i _. apply maxocc_prefix_le.
+    - unfold sl_evs. rewrite firstn_map. fold (sl_evs (firstn k l)). rewrite rc_min_sl_evs. lia.
+  Qed.
+
+  Lemma invrun_sync s P evs : Inv dom s P -> InvRun (apply_all s P) [] evs -> InvRun s P (Sync :: evs).
+  Proof. intros I H [|k]; cbn [firstn crun]; [exact I|apply H]. Qed.
+
+  Lemma invrun_last s P evs : InvRun s P evs -> Inv dom (fst (crun s P evs)) (snd (crun s P evs)).
+  Proof. intros H. specialize (H (length evs)). rewrite firstn_all in H. exact H. Qed.
+
+  Theorem protocol_every_crash_state_safe s incs sets decs :
+    Inv dom s [] ->
+    (* 1: allocations only raise refcounts (stated against the references on disk) *)
+    (forall p, In p incs -> crefs dom s (fst p) <= snd p) ->
+    (* 3: after them, the refcounts cover any mixture of old and new slot contents *)
+    (forall h, refs_max dom (apply_all s (rc_evs incs)) (sl_evs sets) h <= get_rc (apply_all s (rc_evs incs)) h) ->
+    (* 5: releases stay above the references that are on disk after step 4 *)
+    (forall p, In p decs -> crefs dom (apply_all (apply_all s (rc_evs incs)) (sl_evs sets)) (fst p) <= snd p) ->
+    forall k m, let st := crun s [] (firstn k (protocol incs sets decs)) in
+    safe dom (apply_masked (fst st) (snd st) m).
+  Proof.
+    intros I H1 H3 H5 k m st. apply inv_crash_safe. subst st.
+    assert (R : InvRun s [] (protocol incs sets decs)); [|apply R].
+    unfold protocol. apply invrun_app; [apply invrun_rc; assumption|].
+    rewrite crun_no_sync by (apply rc_evs_no_sync). cbn [fst snd app].
+    pose proof (invrun_last _ _ _ (invrun_rc s incs I H1)) as I1.
+    rewrite crun_no_sync in I1 by (apply rc_evs_no_sync). cbn [fst snd app] in I1.
+    apply invrun_sync; [exact I1|].
+    apply invrun_app; [apply invrun_sl; exact H3|].
+    rewrite crun_no_sync by (apply sl_evs_no_sync). cbn [fst snd app].
+    pose proof (invrun_last _ _ _ (invrun_sl _ sets H3)) as I3.
+    rewrite crun_no_sync in I3 by (apply sl_evs_no_sync). cbn [fst snd app] in I3.
+    apply invrun_sync; [exact I3|].
+    apply invrun_rc; [apply inv_sync; exact I3|exact H5].
+  Qed.
+End Protocol.
+
+Example protocol_instance :
+  (* cluster 7 is allocated and mapped at slot 101 while the mapping of cluster 5 at slot 100 is dropped *)
+  let s := {| rcl := [(5, 1)]; sll := [(100, [5])] |} in
+  disciplined [100; 101] s (protocol [(7, 1)] [(101, [7]); (100, [])] [(5, 0)]) = true.
+Proof. vm_compute. reflexivity. Qed.
